@@ -3,8 +3,11 @@ from ..core import Script, hx
 from .. import tablegen
 from . import C11 as _c11
 
+from . import _nodecommon
+from .. import nodegen
+
 ID = "C13"
-SUITES = ["frame", "table"]
+SUITES = ["frame", "table", "node"]
 LEAN_MODULES = ["VpnCloud.Proofs.C13"]
 THEOREMS = ["VpnCloud.Proofs.C13." + n for n in ("learn_spec", "learn_last_writer", "learn_expiry", "disconnect_forgets", "vlan_normalised", "vlan_normalised_model", "vlan_tag_injective", "tagged_ne_untagged")]
 BATCH = 200
@@ -67,7 +70,7 @@ def learn_script(rng, n, name):
     return Script(name, ops, {"suite": "table"})
 
 
-def gen(tier, rng):
+def _gen_base(tier, rng):
     thorough = tier == "thorough"
     ops = []
     for tci in range(65536):
@@ -86,3 +89,17 @@ def gen(tier, rng):
     for _ in range(2000 if thorough else 100):
         n += 1
         yield learn_script(rng, rng.range(10, 300 if thorough else 60), "learn-long-%d" % n)
+
+
+def gen(tier, rng):
+    for x in _gen_base(tier, rng):
+        yield x
+    thorough = tier == "thorough"
+    # node level: learning per VLAN in switch mode, none in hub / router mode, expiry and disconnect
+    r = rng.fork("node")
+    yield nodegen.c10_script(r, "node-switch", 3, "switch", "tap", 80 if thorough else 40)
+    yield nodegen.c10_script(r, "node-hub", 3, "hub", "tap", 40 if thorough else 20)
+    yield nodegen.c10_script(r, "node-router-tap", 3, "router", "tap", 40 if thorough else 20)
+    yield nodegen.switch_timeout_script(r, "node-switch-timeout", pt=20, st=10)
+
+obs_class, nontrivial_key = _nodecommon.with_node(obs_class, nontrivial_key)
